@@ -156,7 +156,7 @@ def proxyMon (m : String) (op : List String) (exts : List (List String)) (obs : 
       if n == 0 then
         if !isCleanPath r.dpath && cs == 301 then
           (m, [fail "unclean-path-redirected-by-mux" s!"{r.method} {enc target}: answered 301 by the mux, nothing relayed"])
-        else (m, [fail "not-relayed" s!"{r.method} {enc target}: upstream saw no request, client got {cs}"])
+        else (m, [fail "refused-instead-of-relayed" s!"{r.method} {enc target}: upstream saw no request, client got {cs}"])
       else
         let um := dec ((kv toks "um").getD "-")
         let uu := dec ((kv toks "uu").getD "-")
@@ -172,7 +172,12 @@ def proxyMon (m : String) (op : List String) (exts : List (List String)) (obs : 
           (if upath != m ++ r.path then
              [fail "path-changed" s!"{enc r.path} arrived as {enc upath}"] else []) ++
           (if uq != wantQ then [fail "query-changed" s!"query {enc (wantQ.getD "<none>")} arrived as {enc (uq.getD "<none>")}"] else []) ++
-          (if ub != r.body then [fail "request-body-changed" s!"{r.body} arrived as {ub}"] else []) ++
+          (if ub == r.body then []
+           else if ub.startsWith "trunc:" || ub == emptyBody then
+             [fail "request-body-truncated" s!"{r.body} arrived cut short as {ub}"]
+           else match AList.get r.headers "Content-Encoding" with
+             | some ces => [fail s!"request-body-altered:content-encoding={enc (joinVals ces)}" s!"{r.body} arrived as {ub}"]
+             | none => [fail "request-body-changed" s!"{r.body} arrived as {ub}"]) ++
           (r.headers.flatMap fun (name, vals) =>
             if name == xffName then [] else
             match AList.get uh name with
